@@ -1,5 +1,7 @@
 # -*- coding: utf-8 -*-
 """Helpers shared by the rules that use the abstract interpreter (E4)."""
+import ast
+
 from .model import AnalysisError
 from .absint import (Interp, Const, Sym, Err, Atom, Top, Func, ListV, Obj, Exc, Raised, Unmodelled, NUMERIC)
 
@@ -34,6 +36,15 @@ def date_opaque(model):
                 return NotImplemented
             out[(m.name, m.functions.key_of('serialize_date'))] = ser
             out[(m.name, m.functions.key_of('parse_date'))] = par
+            # the conversion proper split off into a helper the converter ends in (return serialize_datetime(date)): on a date-time it
+            # is the same function
+            sd = m.functions['serialize_date']
+            ps = [a.arg for a in sd.args.args]
+            for st in sd.body:
+                if isinstance(st, ast.Return) and isinstance(st.value, ast.Call) and isinstance(st.value.func, ast.Name) and \
+                        st.value.func.id in m.functions and st.value.func.id not in ('serialize_date', 'parse_date') and \
+                        len(st.value.args) == 1 and isinstance(st.value.args[0], ast.Name) and st.value.args[0].id in ps and not st.value.keywords:
+                    out[(m.name, m.functions.key_of(st.value.func.id))] = ser
     if not out:
         raise AnalysisError('date converters serialize_date/parse_date not found (anchor vanished)')
     return out
